@@ -172,174 +172,126 @@ def enumerate_patterns(max_size, limit, seed):
         out.append((p, True, True))
     return out
 
+def escape_sweep(tier):
+    """every spelling of the escape families (ECMA-262 incl. Annex B), alone and inside classes; AST size 1"""
+    base = []
+    for c in "ABCDEFGHIJKLMNOPQRSTUVWXYZabcdefghijklmnopqrstuvwxyz":
+        base.append((rng(ord(c) % 32), "\\c" + c))
+    for v in range(256):
+        base.append((rng(v), "\\x%02X" % v))
+        if tier != "quick" or v % 3 == 0 or v in (16, 17, 127, 128, 255):
+            base.append((rng(v), "\\x%02x" % v))
+        base.append((rng(v), "\\%03o" % v))  # \000..\377
+    for v in range(8, 0o100):
+        base.append((rng(v), "\\%o" % v))  # \10..\77 (no groups in the pattern: legacy octal, Annex B)
+    for v in range(8):
+        base.append((rng(v), "\\0%o" % v))  # \00..\07
+        if v:
+            base.append((rng(v), "\\%o" % v))  # \1..\7
+    base.append((rng(0), "\\0"))
+    for v in (0, 1, 0xF, 0x10, 0x7F, 0x80, 0xFF, 0x100, 0xFFF, 0x1000, 0x2028, 0xD7FF, 0xE000, 0xFFFD, 0xFFFF):
+        base.append((rng(v), "\\u%04X" % v))
+    for v in (0, 0x10, 0xFF, 0x100, 0xFFFF, 0x10000, 0x1F600, 0x2FFFF):
+        base.append((rng(v), "\\u{%X}" % v))
+    for c in "^$\\.*+?()[]{}|/-":
+        base.append((rng(ord(c)), "\\" + c))
+    # identity escapes of letters that mean nothing in ECMA-262 but something in RE2 (\a \z \A \Q \E \C \h ...)
+    for c in "aeghijlmoqyzACEFGHIJKLMNOQRTUVXYZ":
+        base.append((rng(ord(c)), "\\" + c))
+    seen, out = set(), []
+    for ranges, t in base:
+        if t in seen:
+            continue
+        seen.add(t)
+        out.append(("set", ranges, t))
+        out.append(("set", norm(ranges), "[" + t + "]"))
+        out.append(("set", neg(ranges), "[^" + t + "]"))
+        out.append(("set", norm(ranges + rng(0x61)), "[a" + t + "]"))
+    # class escapes inside classes, positive and negated, alone and mixed
+    for name, rs in (("d", DIGIT), ("D", neg(DIGIT)), ("w", WORD), ("W", neg(WORD)), ("s", ECMA_WS), ("S", neg(ECMA_WS))):
+        e = "\\" + name
+        out.append(("set", norm(rs), "[" + e + "]"))
+        out.append(("set", neg(rs), "[^" + e + "]"))
+        out.append(("set", norm(rs + rng(0x0A)), "[" + e + "\\n]"))
+        out.append(("set", neg(norm(rs + rng(0x0A))), "[^" + e + "\\n]"))
+        out.append(("set", norm(rs + rng(0x61, 0x63)), "[a-c" + e + "]"))
+        out.append(("set", norm(rs + rng(0x2D)), "[" + e + "-]"))
+    return out
+
 # patterns outside the regular fragment: must run on the backtracking engine (or be rejected), never on the linear-time one
 NON_REGULAR = ["(?=a)b", "a(?!b)", "(a)\\1", "(?<n>a)\\k<n>", "(?<=a)b", "(?<!a)b", "(a)|\\1b", "^(?=\\d)\\w+$", "(a)(b)\\2", "x(?=y)|z"]
 
-# ----------------------------------------------------------------------------- RE2 parser (converted text)
+# ----------------------------------------------------------------------------- RE2 side: Go's own parse of the executed expression
 class Unsupported(Exception):
     pass
 
-class RE2:
-    def __init__(self, s):
-        self.s, self.i = s, 0
-        self.start_anchor = self.end_anchor = False
+EPS = None
 
-    def peek(self):
-        return self.s[self.i] if self.i < len(self.s) else None
+def pairs(r):
+    out = []
+    for i in range(0, len(r), 2):
+        lo, hi = r[i], min(r[i + 1], MAXCP)
+        if lo <= MAXCP:
+            out.append((lo, hi))
+    return norm(out)
 
-    def parse(self):
-        if self.peek() == "^":
-            self.start_anchor = True
-            self.i += 1
-        r = self.alt(top=True)
-        if self.i != len(self.s):
-            raise Unsupported("trailing input at %d" % self.i)
-        return r
-
-    def alt(self, top=False):
-        parts = [self.cat(top)]
-        while self.peek() == "|":
-            self.i += 1
-            parts.append(self.cat(top))
-        return parts[0] if len(parts) == 1 else z3.Union(*parts)
-
-    def cat(self, top):
-        items = []
-        while True:
-            c = self.peek()
-            if c is None or c == "|" or c == ")":
-                break
-            if c == "$" and top and self.i == len(self.s) - 1:
-                self.end_anchor = True
-                self.i += 1
-                break
-            items.append(self.repeat())
-        if not items:
+def go_lang(n):
+    """RegLan of a regexp/syntax node without anchors inside (anchors are handled by go_search)"""
+    op = n["op"]
+    sub = n.get("sub") or []
+    if op == "nomatch":
+        return z3.Empty(z3.ReSort(z3.StringSort()))
+    if op == "empty":
+        return z3.Re(z3.StringVal(""))
+    if op == "cc":
+        return set_re(pairs(n.get("r") or []))
+    if op == "anynl":
+        return set_re(neg(rng(0x0A)))
+    if op == "any":
+        return set_re(ANY)
+    if op == "cap":
+        return go_lang(sub[0])
+    if op == "star":
+        return z3.Star(go_lang(sub[0]))
+    if op == "plus":
+        return z3.Plus(go_lang(sub[0]))
+    if op == "quest":
+        return z3.Option(go_lang(sub[0]))
+    if op == "rep":
+        mx = n.get("max", 0)
+        return quant(go_lang(sub[0]), n.get("min", 0), None if mx < 0 else mx)
+    if op == "cat":
+        if not sub:
             return z3.Re(z3.StringVal(""))
-        return items[0] if len(items) == 1 else z3.Concat(*items)
+        parts = [go_lang(x) for x in sub]
+        return parts[0] if len(parts) == 1 else z3.Concat(*parts)
+    if op == "alt":
+        parts = [go_lang(x) for x in sub]
+        return parts[0] if len(parts) == 1 else z3.Union(*parts)
+    raise Unsupported("regexp/syntax op %s inside the expression" % op)
 
-    def repeat(self):
-        a = self.atom()
-        while True:
-            c = self.peek()
-            if c == "*":
-                self.i += 1; a = z3.Star(a)
-            elif c == "+":
-                self.i += 1; a = z3.Plus(a)
-            elif c == "?":
-                self.i += 1; a = z3.Option(a)
-            elif c == "{":
-                j = self.s.find("}", self.i)
-                body = self.s[self.i + 1:j] if j > 0 else ""
-                import re as _re
-                m = _re.fullmatch(r"(\d+)(,(\d*))?", body)
-                if not m:
-                    # literal brace
-                    self.i += 1
-                    a = z3.Concat(a, z3.Re(z3.StringVal("{")))
-                    continue
-                lo = int(m.group(1))
-                hi = lo if m.group(2) is None else (None if m.group(3) == "" else int(m.group(3)))
-                self.i = j + 1
-                a = quant(a, lo, hi)
-            else:
-                break
-            if self.peek() == "?":  # lazy: same language
-                self.i += 1
-        return a
+def go_search(n):
+    """search language (set of subjects with a match somewhere) of the executed expression"""
+    op = n["op"]
+    sub = n.get("sub") or []
+    if op == "alt":
+        return z3.Union(*[go_search(x) for x in sub])
+    if op == "cap":
+        return go_search(sub[0])
+    if op == "bot" or op == "eot":
+        return ALL  # the empty match at an edge exists in every subject
+    if op == "cat":
+        sa = ea = False
+        items = list(sub)
+        while items and items[0]["op"] == "bot":
+            sa = True; items = items[1:]
+        while items and items[-1]["op"] == "eot":
+            ea = True; items = items[:-1]
+        return search_lang(go_lang(dict(op="cat", sub=items)), sa, ea)
+    return search_lang(go_lang(n), False, False)
 
-    def atom(self):
-        c = self.peek()
-        if c == "(":
-            self.i += 1
-            if self.s.startswith("?:", self.i):
-                self.i += 2
-            elif self.peek() == "?":
-                raise Unsupported("group flags")
-            r = self.alt()
-            if self.peek() != ")":
-                raise Unsupported("unterminated group")
-            self.i += 1
-            return r
-        if c == "[":
-            return set_re(self.cls())
-        if c == ".":
-            self.i += 1
-            return set_re(RE2_DOT)
-        if c == "\\":
-            rs = self.escape(False)
-            return set_re(rs)
-        if c in "^$":
-            raise Unsupported("interior anchor")
-        self.i += 1
-        return set_re(rng(ord(c)))
-
-    def escape(self, in_class):
-        assert self.s[self.i] == "\\"
-        self.i += 1
-        c = self.peek()
-        if c is None:
-            raise Unsupported("trailing backslash")
-        self.i += 1
-        table = {"d": DIGIT, "D": neg(DIGIT), "w": WORD, "W": neg(WORD), "s": RE2_WS, "S": neg(RE2_WS),
-                 "n": rng(0x0A), "r": rng(0x0D), "t": rng(0x09), "f": rng(0x0C), "v": rng(0x0B), "a": rng(0x07)}
-        if c in table:
-            return table[c]
-        if c == "x":
-            if self.peek() == "{":
-                j = self.s.find("}", self.i)
-                v = int(self.s[self.i + 1:j], 16)
-                self.i = j + 1
-                return rng(v)
-            v = int(self.s[self.i:self.i + 2], 16)
-            self.i += 2
-            return rng(v)
-        if c in "bBAzpPQEC" or c.isdigit():
-            if c == "0":
-                return rng(0)
-            raise Unsupported("escape \\" + c)
-        if c.isalnum():
-            raise Unsupported("escape \\" + c)
-        return rng(ord(c))
-
-    def cls(self):
-        assert self.s[self.i] == "["
-        self.i += 1
-        negate = False
-        if self.peek() == "^":
-            negate = True
-            self.i += 1
-        ranges = []
-        first = True
-        while True:
-            c = self.peek()
-            if c is None:
-                raise Unsupported("unterminated class")
-            if c == "]" and not first:
-                self.i += 1
-                break
-            first = False
-            if c == "[" and self.s.startswith("[:", self.i):
-                raise Unsupported("posix class")
-            if c == "\\":
-                lo = self.escape(True)
-            else:
-                self.i += 1
-                lo = rng(ord(c))
-            if self.peek() == "-" and self.i + 1 < len(self.s) and self.s[self.i + 1] != "]" and len(lo) == 1 and lo[0][0] == lo[0][1]:
-                self.i += 1
-                c2 = self.peek()
-                if c2 == "\\":
-                    hi = self.escape(True)
-                else:
-                    self.i += 1
-                    hi = rng(ord(c2))
-                if len(hi) != 1 or hi[0][0] != hi[0][1]:
-                    raise Unsupported("class range to a set")
-                ranges += [(lo[0][0], hi[0][0])]
-            else:
-                ranges += lo
-        return neg(ranges) if negate else norm(ranges)
+def set_empty_ok(ranges):
+    return set_re(ranges)
 
 # ----------------------------------------------------------------------------- driver
 ALL = z3.Full(z3.ReSort(z3.StringSort()))
@@ -382,9 +334,17 @@ def main():
     try:
         binp = build_helper(scratch)
         pats = enumerate_patterns(max_size, limit, seed)
+        sweep = escape_sweep(tier)
+        for a in sweep:
+            pats.append((a, False, False))
+            pats.append((a, True, True))
+        stats["escape_sweep_patterns"] = 2 * len(sweep)
         texts = []
         for (ast, sa, ea) in pats:
-            texts.append(("^" if sa else "") + text(ast) + ("$" if ea else ""))
+            body = text(ast)
+            if ast[0] == "alt" and (sa or ea):
+                body = "(?:" + body + ")"  # the anchors of this enumeration bind the whole pattern
+            texts.append(("^" if sa else "") + body + ("$" if ea else ""))
         res = run_helper(binp, scratch, patterns=texts)["patterns"]
         pending = []
         nres = run_helper(binp, scratch, patterns=NON_REGULAR)["patterns"]
@@ -415,19 +375,17 @@ def main():
             if time.time() - t0 > budget:
                 inconclusive.append("time budget exhausted before pattern %r" % t)
                 break
+            if not r.get("ast"):
+                stats["skipped_unsupported"] += 1
+                inconclusive.append("no regexp/syntax parse of the executed expression %r (from %r)" % (r.get("executed"), t))
+                continue
             try:
-                p2 = RE2(r["converted"])
-                re2 = p2.parse()
+                lr = go_search(r["ast"])
             except Unsupported as e:
                 stats["skipped_unsupported"] += 1
-                inconclusive.append("converted text of %r not in the RE2 fragment this check reads: %s" % (t, e))
-                continue
-            except Exception as e:
-                stats["skipped_unsupported"] += 1
-                inconclusive.append("RE2 reader failed on %r (converted from %r): %s" % (r["converted"], t, e))
+                inconclusive.append("executed expression %r (from %r) is outside the fragment this check encodes: %s" % (r.get("executed"), t, e))
                 continue
             le = search_lang(ecma_re(ast), sa, ea)
-            lr = search_lang(re2, p2.start_anchor, p2.end_anchor)
             w = z3.String("w")
             s = z3.Solver()
             s.set("timeout", 10000)
@@ -501,7 +459,7 @@ def main():
         exit_code = 1
     elif exit_code == 1:
         pass
-    elif inconclusive and any(not s.startswith("converted text") for s in inconclusive):
+    elif inconclusive:
         exit_code = 2
     for l in lines:
         print(l)
